@@ -69,7 +69,7 @@ def run(ctx):
         slices = [("MCInitiatorC27.cfg", "C27a", {"MaxDepth": "7"}),
                   ("MCInitiatorC27.cfg", "C27b", {"MaxPeers": "3", "MaxWarm": "1", "MaxDepth": "6"}),
                   ("MCInitiatorC27.cfg", "C27c", {"MaxPeers": "2", "MaxWarm": "2", "MaxHot": "1", "MaxErr": "0",
-                                                  "Peers": "{1, 2}", "MaxDepth": "8"})]
+                                                  "Peers": "{1, 2}", "MaxDepth": "7"})]
     rows = []
     for base, name, ov in slices:
         scheds, classes, consts = pc.mc_slice(ctx, base, name, ov, timeout=1500)
